@@ -25,6 +25,7 @@ type progCase struct {
 	dynamic bool
 	note    string
 	steps   int // trampoline polls allowed (0: stepLimit)
+	spec    *G  // if set: the query M and S run in place of prog.query (a library predicate replaced by its textbook definition)
 }
 
 const answerLimit = 12
@@ -173,7 +174,7 @@ func runProgProperty(pid, outDir string, seed int64, tier string, gen func(r *rn
 				cl.Status = "huge"
 			default:
 				cl.Answers, cl.Ending = len(out.Answers), coqEnding(out)
-				cl.Coq = fmt.Sprintf("(%d, %s, %s, %s, %d%%nat, %s, %s)", id, pc.prog.coqClauses(), pc.prog.query.coq(), qvarIdx(pc.prog),
+				cl.Coq = fmt.Sprintf("(%d, %s, %s, %s, %d%%nat, %s, %s)", id, pc.prog.coqClauses(), specOr(pc).coq(), qvarIdx(pc.prog),
 					answerLimit, coqAnswers(out.Answers, pc.prog.queryVars()), coqEnding(out))
 			}
 			b, _ := json.Marshal(cl)
@@ -289,6 +290,13 @@ func runProgProperty(pid, outDir string, seed int64, tier string, gen func(r *rn
 	sum.write(outDir, start)
 }
 
+func specOr(pc *progCase) *G {
+	if pc.spec != nil {
+		return pc.spec
+	}
+	return pc.prog.query
+}
+
 func appendOnce(l []string, s string) []string {
 	for _, x := range l {
 		if x == s {
@@ -314,7 +322,7 @@ func runC01(outDir string, seed int64, tier string) {
 	f := feat{nestedOr: true, topOr: true, callN: true, arith: true}
 	sel := selectionPrograms()
 	wide := widePrograms()
-	deep := append(deepPrograms(0, tier), metaCallPrograms()...)
+	deep := append(append(deepPrograms(0, tier), metaCallPrograms()...), libraryAgainstTextbook()...)
 	runProgProperty("C01", outDir, seed, tier, func(r *rng, i int) *progCase {
 		if i < len(deep) {
 			return deep[i]
@@ -328,7 +336,7 @@ func runC01(outDir string, seed int64, tier string) {
 		}
 		return &progCase{prog: genProgram(r, f)}
 	}, 1000+len(deep), 8000+len(deep),
-		"deep goals (a recursion of depth 600, thorough also 40 and 1100, after an older choice point, bare, under call/1 and in a disjunction); one goal term reaching call/1, call/N, \\+, findall/3, once/1, a disjunction or a variable goal through a clause variable and executed again after backtracking has rebound its inner variable; wide goals (two-alternative disjunctions and call/N goals with 7-11 distinct free variables, one after the other); clause selection exhaustively over small shapes (18 head shapes x 30 argument shapes x 3 positions: closed lists of length 0-3, list patterns, string-backed lists, partial lists of every prefix length, atoms, integers, compounds, repeated variables); then random programs: 1-5 predicates of arity 0-3 with 1-4 clauses, nested terms/lists/partial lists in heads, bodies with conjunction, nested and top-level disjunction (no cut), call/N, arithmetic, between/3, member/2 and a library with direct and mutual recursion; queries of 1-3 goals; up to 12 answers compared as sequences up to variable renaming; distinct by program+query text; non-trivial = at least one answer or an error")
+		"library predicates against their textbook definitions (the implementation runs member/2, select/3, append/3 on proper, partial and unbound lists; M and S run the two-clause textbook predicates on the same arguments; first 12 answers); deep goals (a recursion of depth 600, thorough also 40 and 1100, after an older choice point, bare, under call/1 and in a disjunction); one goal term reaching call/1, call/N, \\+, findall/3, once/1, a disjunction or a variable goal through a clause variable and executed again after backtracking has rebound its inner variable; wide goals (two-alternative disjunctions and call/N goals with 7-11 distinct free variables, one after the other); clause selection exhaustively over small shapes (18 head shapes x 30 argument shapes x 3 positions: closed lists of length 0-3, list patterns, string-backed lists, partial lists of every prefix length, atoms, integers, compounds, repeated variables); then random programs: 1-5 predicates of arity 0-3 with 1-4 clauses, nested terms/lists/partial lists in heads, bodies with conjunction, nested and top-level disjunction (no cut), call/N, arithmetic, between/3, member/2 and a library with direct and mutual recursion; queries of 1-3 goals; up to 12 answers compared as sequences up to variable renaming; distinct by program+query text; non-trivial = at least one answer or an error")
 }
 
 func runC03(outDir string, seed int64, tier string) {
